@@ -1,5 +1,6 @@
-(* C09 purity: without a subtraction collector no stream of a required query
-   (or of exists()) ends in a document mutation. *)
+(* C09 purity: no stream of a required query (or of exists()) ends in a document
+   mutation -- for every path, collectors with +, - and & at any nesting level
+   included (the subtraction works on a copy since the fix of F16). *)
 From Coq Require Import List Ascii String ZArith NArith Bool Arith Lia.
 From YP Require Import Outcome PyStr PyVal Doc Generated PathParser PathPrinter Searches Eval SpecC09.
 Import ListNotations.
@@ -103,60 +104,43 @@ Proof.
   all: try (apply nomut_gfirst; [apply H | intros; repeat pstep]).
 Qed.
 
-(* collectors: the peek loop without subtraction *)
-Lemma peek_loop_pure rqp rest v c : 
-  (forall p, no_sub p = true -> forall e c', nomut (rqp p e c')) ->
-  nosub_segs rest = true ->
+(* collectors.  Since the fix of F16 the subtraction removes pairs from a copy:
+   [subtraction] has no [Mut] stop. *)
+Lemma subtraction_pure rems lhs : nomut (subtraction rems lhs).
+Proof. unfold subtraction. destruct (sub_scan rems lhs []); exact I. Qed.
+
+Lemma peek_loop_pure rqp rest v c :
+  (forall p e c', nomut (rqp p e c')) ->
   forall ncs k, (forall l, nomut (k l)) -> nomut (peek_loop rqp rest v c ncs k).
 Proof.
-  intros Hrq. induction rest as [|[es us s s2] r IH]; intros Hns ncs k Hk; cbn [peek_loop]; auto.
-  cbn [nosub_segs] in Hns.
-  apply andb_prop in Hns; destruct Hns as [Hns H4]. apply andb_prop in Hns; destruct Hns as [Hns H3].
-  apply andb_prop in Hns; destruct Hns as [H1 H2].
+  intros Hrq. induction rest as [|[es us s s2] r IH]; intros ncs k Hk; cbn [peek_loop]; auto.
   cbn [seg_es seg_sub2].
   destruct es as [ty a]. destruct ty as [[]|]; auto.
   destruct a; auto. destruct op; auto.
   - exact I.
   - apply nomut_all_gen; auto.
-  - cbn in H1. discriminate.
+  - apply nomut_all_gen; auto. intros items. apply nomut_glift. intros rems.
+    pose proof (subtraction_pure (List.concat rems) ncs) as Hs.
+    destruct (subtraction (List.concat rems) ncs) as [l st]. destruct st; cbn in *; auto.
   - apply nomut_all_gen; auto.
 Qed.
 
-Lemma nosub_skipn segs : forall i, nosub_segs segs = true -> nosub_segs (skipn i segs) = true.
-Proof.
-  induction segs as [|[es us s s2] r IH]; intros i H; destruct i; cbn in *; auto.
-  apply IH. apply andb_prop in H. tauto.
-Qed.
-
 Lemma by_collector_pure rqp op ps rest v c :
-  (forall p, no_sub p = true -> forall e c', nomut (rqp p e c')) -> nosub_segs rest = true ->
-  no_sub (seg_sub ps) = true ->
+  (forall p e c', nomut (rqp p e c')) ->
   nomut (by_collector rqp op ps rest v c).
 Proof.
-  intros Hrq Hns Hsub. unfold by_collector. destruct op; try exact I.
+  intros Hrq. unfold by_collector. destruct op; try exact I.
   apply nomut_all_gen; auto. intros l.
   apply peek_loop_pure; auto. intros l2. destruct l2; exact I.
 Qed.
 
-Lemma nosub_nth segs : forall i ps, nosub_segs segs = true -> nth_error segs i = Some ps ->
-  no_sub (seg_sub ps) = true /\ no_sub (seg_sub2 ps) = true.
-Proof.
-  induction segs as [|[es us s s2] r IH]; intros i ps H Hn; destruct i; cbn in *; try discriminate.
-  - inversion Hn; subst; cbn.
-    apply andb_prop in H; destruct H as [H H4]. apply andb_prop in H; destruct H as [H H3].
-    apply andb_prop in H; destruct H as [H1 H2]. auto.
-  - apply andb_prop in H; destruct H as [H H4]. eapply IH; eauto.
-Qed.
-
 Lemma dispatch_pure self sg_next rqp segs i v c :
-  nosub_segs segs = true ->
   (forall e c', nomut (self e c')) -> (forall e c', nomut (sg_next e c')) ->
-  (forall p, no_sub p = true -> forall e c', nomut (rqp p e c')) ->
+  (forall p e c', nomut (rqp p e c')) ->
   nomut (dispatch lit re_search nstr vstr kw_handler self sg_next rqp segs i v c).
 Proof.
-  intros Hns Hs Hn Hr. unfold dispatch.
+  intros Hs Hn Hr. unfold dispatch.
   destruct (nth_error segs i) as [ps|] eqn:En; [|exact I].
-  destruct (nosub_nth _ _ _ Hns En) as [Hsub _].
   destruct (seg_es ps) as [ty a]. destruct (seg_us ps) as [uty ua].
   destruct (_ && _ && _); [exact I|].
   destruct (unwrap_ctx v c) as [v1 c1].
@@ -168,7 +152,7 @@ Proof.
                        end)).
   { destruct uty as [[]|]; try (destruct (is_ty TTraverse ty); [apply trav_pure; auto | exact I]).
     destruct ua; try (destruct (is_ty TTraverse ty); [apply trav_pure; auto | exact I]).
-    apply by_collector_pure; auto. apply nosub_skipn; auto. }
+    apply by_collector_pure; auto. }
   destruct ty as [[]|]; try exact Hfb.
   - apply by_anchor_pure.
   - apply by_index_pure.
@@ -179,64 +163,55 @@ Proof.
 Qed.
 
 Lemma walk_pure sg_next rqp segs i :
-  nosub_segs segs = true ->
-  (forall e c', nomut (sg_next e c')) -> (forall p, no_sub p = true -> forall e c', nomut (rqp p e c')) ->
+  (forall e c', nomut (sg_next e c')) -> (forall p e c', nomut (rqp p e c')) ->
   forall vf v c, nomut (walk lit re_search nstr vstr kw_handler sg_next rqp segs i vf v c).
 Proof.
-  intros Hns Hn Hr. induction vf as [|vf IH]; intros v c; [exact I|].
+  intros Hn Hr. induction vf as [|vf IH]; intros v c; [exact I|].
   cbn [walk]. apply dispatch_pure; auto.
 Qed.
 
-Lemma no_sub_ppath segs : no_sub (PPath segs) = nosub_segs segs.
-Proof.
-  induction segs as [|[es us s s2] r IH]; [reflexivity|].
-  change (no_sub (PPath (PSeg es us s s2 :: r)))
-    with (negb (is_sub_seg es) && no_sub s && no_sub s2 && no_sub (PPath r)).
-  rewrite IH. reflexivity.
-Qed.
-
+(* every path: the required driver and the per-segment driver never write *)
 Lemma ev_pure : forall pf md segs i v c,
-  md <> MOpt -> nosub_segs segs = true ->
+  md <> MOpt ->
   nomut (ev lit re_search nstr vstr kw_handler creator pf md segs i v c).
 Proof.
-  induction pf as [|pf IH]; intros md segs i v c Hmd Hns; [exact I|].
+  induction pf as [|pf IH]; intros md segs i v c Hmd; [exact I|].
   cbn [ev]. unfold ev_body.
   set (rqp := fun (p : ppath) (v : rval) (c : ctx) =>
                 match p with PFail e => gerr e
                 | PPath s => ev lit re_search nstr vstr kw_handler creator pf MReq s 0 v c end).
-  assert (Hrq : forall p, no_sub p = true -> forall e c', nomut (rqp p e c')).
-  { intros p Hp e c'. unfold rqp. destruct p as [s|ex]; [|exact I].
-    apply IH; [discriminate|]. rewrite <- no_sub_ppath. exact Hp. }
+  assert (Hrq : forall p e c', nomut (rqp p e c')).
+  { intros p e c'. unfold rqp. destruct p as [s|ex]; [|exact I]. apply IH; discriminate. }
   assert (Hnext : forall e c', nomut (ev lit re_search nstr vstr kw_handler creator pf MSeg segs (S i) e c')).
-  { intros. apply IH; [discriminate | auto]. }
+  { intros. apply IH; discriminate. }
   destruct md; try (exfalso; apply Hmd; reflexivity).
   - destruct (i <? Datatypes.length segs); [|exact I].
     apply nomut_gbind; [apply walk_pure; auto|].
-    intros x. destruct (is_pylist x); [apply IH; [discriminate|auto]|].
-    destruct x; try exact I. apply IH; [discriminate|auto].
+    intros x. destruct (is_pylist x); [apply IH; discriminate|].
+    destruct x; try exact I. apply IH; discriminate.
   - apply walk_pure; auto.
 Qed.
 
 Theorem get_required_pure p d :
-  no_sub p = true -> pure_stop (snd (get_required lit re_search nstr vstr kw_handler creator p d)).
+  pure_stop (snd (get_required lit re_search nstr vstr kw_handler creator p d)).
 Proof.
-  intros H. unfold get_required.
+  unfold get_required.
   destruct d as [i v| | |]; try destruct v; try exact I.
   all: destruct p as [segs|e]; [|exact I].
   all: match goal with |- pure_stop (snd (match ?g with _ => _ end)) =>
-         assert (Hg : nomut g) by (apply ev_pure; [discriminate | rewrite <- no_sub_ppath; exact H]);
+         assert (Hg : nomut g) by (apply ev_pure; discriminate);
          destruct g as [[|x l] []]; cbn in *; auto
        end.
 Qed.
 
 Theorem exists_pure p d :
-  no_sub p = true -> pure_stop (snd (exists_ lit re_search nstr vstr kw_handler creator p d)).
+  pure_stop (snd (exists_ lit re_search nstr vstr kw_handler creator p d)).
 Proof.
-  intros H. unfold exists_.
+  unfold exists_.
   destruct d as [i v| | |]; try destruct v; try exact I.
   all: destruct p as [segs|e]; [|exact I].
   all: match goal with |- pure_stop (snd (match ?g with _ => _ end)) =>
-         assert (Hg : nomut g) by (apply ev_pure; [discriminate | rewrite <- no_sub_ppath; exact H]);
+         assert (Hg : nomut g) by (apply ev_pure; discriminate);
          destruct g as [l []]; cbn in *; auto
        end.
 Qed.
